@@ -174,7 +174,7 @@ theorem step_plain {w s l s'} (hl : l.isPlain = true) (hs : step w s l = some s'
   case time => exact .inl (stepTime_chan hs)
   case streamReady => exact .inl (stepStreamReady_chan hs)
   case streamEnd => exact .inl (stepStreamEnd_chan hs)
-  case quiescent => simp at hs; subst hs; exact .inl rfl
+  case quiescent => simp only [stepQuiescent] at hs; split at hs <;> simp at hs; subst hs; exact .inl rfl
   case tChanEnd => exact .inl (stepChanEnd_chan hs)
   case tStreamEnd => exact .inl (stepStreamEndTau_chan hs)
   case timerArm => exact stepTimerArm_chan hs
